@@ -21,6 +21,8 @@ ASSUMES = ["D-RE-CIT: the citation pattern matches exactly the texts '[' digits 
            "pointwise model (_deref/_save/_restore): a record's citation qualifiers are represented by one generic entry of one generic feature",
            "indexed model (_ref_citations): features = sequence of distinct identities, cite(f,i) = reference cited by entry i; "
            "Reference == Reference is equality of the abstract reference identity",
+           "the abstract citation cells (CIT/REFS transformed by D/R/RR) used at the call sites in assemble() stand for the "
+           "pointwise/indexed contracts of the passes: linked by reading, not by proof",
            "D-LIST: list.index returns the least position / ValueError, append adds at the end, `in` is membership"]
 TRUSTED = ["CPython re on the citation pattern", "Bio.SeqFeature.Reference equality"]
 EXPLANATION = ("body VCs of _deref_citations / _save_citations / _restore_citations on the generic citation entry, of "
